@@ -103,6 +103,34 @@ Theorem C12_never_shorter : forall s ms s1 o h filled,
 Proof. exact never_shorter. Qed.
 Print Assumptions C12_never_shorter.
 
+(* with pairwise disjoint pending ranges (`ranges_disjoint`; an invariant of the client since batch ids are reserved:
+   Proofs/ClientMgrInv.v ic_rng_disj) an accepted reply that contains ANY id of a pending batch A is A's reply entirely:
+   A is the batch completed, every id of the frame lies in A's range, entry j is the last reply with id loA+j *)
+Theorem C12_reply_goes_to_owner : forall s ms s1 o r k loA hiA,
+  handle_back s (FArray ms) = ROk s1 o -> ranges_disjoint (batches (m s)) ->
+  In r (resps ms) -> id_as_number (rs_id r) = Some k ->
+  In (loA, hiA) (map fst (batches (m s))) -> loA <= k < hiA ->
+  exists h,
+    alookup range_eqb (loA, hiA) (batches (m s)) = Some h /\
+    (forall r', In r' (resps ms) -> exists k', id_as_number (rs_id r') = Some k' /\ loA <= k' < hiA) /\
+    batches (m s1) = aremove range_eqb (loA, hiA) (batches (m s)) /\
+    let filled := filled_of loA (N.to_nat (hiA - loA)) (resps ms) in
+    o = complete s h (CBatch filled) /\
+    length filled = N.to_nat (hiA - loA) /\
+    forall j, (j < N.to_nat (hiA - loA))%nat -> nth j filled placeholder = entry_of loA (resps ms) j.
+Proof. exact reply_goes_to_owner. Qed.
+Print Assumptions C12_reply_goes_to_owner.
+
+(* ... and a reply mixing ids of two pending batches is refused: neither caller is answered *)
+Theorem C12_mixed_reply_fails : forall s ms r1 r2 k1 k2 lo1 hi1 lo2 hi2,
+  ranges_disjoint (batches (m s)) ->
+  In r1 (resps ms) -> id_as_number (rs_id r1) = Some k1 -> In (lo1, hi1) (map fst (batches (m s))) -> lo1 <= k1 < hi1 ->
+  In r2 (resps ms) -> id_as_number (rs_id r2) = Some k2 -> In (lo2, hi2) (map fst (batches (m s))) -> lo2 <= k2 < hi2 ->
+  (lo1, hi1) <> (lo2, hi2) ->
+  exists s1 f, handle_back s (FArray ms) = RFatal s1 [] f.
+Proof. exact mixed_reply_fails. Qed.
+Print Assumptions C12_mixed_reply_fails.
+
 (* ------------------------------------------------------------------ HTTP client *)
 
 Theorem C12_http_positional : forall lo n rs filled,
